@@ -138,6 +138,32 @@ class Recorder:
         }
 
 
+class CallTimeout(Exception):
+    """the call under test did not return within its (generous) wall-clock limit: for a pure computation on a small input
+    this is a hang / runaway loop and is reported as a violation by the check, not as an inconclusive run"""
+
+
+class time_limit:
+    """with time_limit(10): call()  - SIGALRM based, main thread only (shards run their cases in the main thread)"""
+    def __init__(self, seconds):
+        self.seconds = seconds
+
+    def __enter__(self):
+        import signal
+
+        def on_alarm(signum, frame):
+            raise CallTimeout(f'no return within {self.seconds} s')
+        self._old = signal.signal(signal.SIGALRM, on_alarm)
+        signal.setitimer(signal.ITIMER_REAL, self.seconds)
+        return self
+
+    def __exit__(self, *exc):
+        import signal
+        signal.setitimer(signal.ITIMER_REAL, 0)
+        signal.signal(signal.SIGALRM, self._old)
+        return False
+
+
 def load_check(prop):
     boot.setup_path()
     cdir = os.path.join(boot.VERIF, 'checks')
